@@ -286,7 +286,7 @@ def corpus_cases():
 
 def chunks(tier, seed):
     ch = [{"kind": "corpus"}, {"kind": "fixed"}]
-    nrand = {"quick": 3000, "thorough": 80000}.get(tier, 10000)
+    nrand = {"quick": 3000, "thorough": 320000}.get(tier, 10000)
     for p in range(4):
         ch.append({"kind": "int16", "part": p, "of": 4})
         ch.append({"kind": "float16", "part": p, "of": 4})
